@@ -247,11 +247,10 @@ func LexCheck(src string) (*Finding, int, []token.Token) {
 				return f("token-class", "string token not at a quote", "string token does not start at a quote")
 			}
 			closing, term := refStringEnd(src, wantStart, q, tok.Type == token.RAW_STRING)
-			if term {
-				last = closing
-			} else {
-				last = len(src) - 1
+			if !term {
+				return f("token-class", "unterminated string typed string", "a string literal without closing quote is typed as a string")
 			}
+			last = closing
 		case tok.Type == token.IDENT || kwTypes[tok.Literal] == tok.Type && tok.Type != 0 && isLetter(c):
 			if !isLetter(c) {
 				return f("token-class", "identifier token not at a letter", "identifier token does not start at a letter")
@@ -293,6 +292,12 @@ func LexCheck(src string) (*Finding, int, []token.Token) {
 					return f("number-class", "int/float", fmt.Sprintf("%q typed %v", tok.Literal, tok.Type))
 				}
 			}
+		case tok.Type == token.ILLEGAL && (c == '"' || c == '\'' || c == '`'):
+			// a literal whose closing quote is missing is reported as an illegal token spanning the rest of the input
+			if _, term := refStringEnd(src, wantStart, c, c == '`'); term {
+				return f("token-class", "terminated string typed illegal", "a terminated string literal is typed illegal")
+			}
+			last = len(src) - 1
 		case tok.Type == token.ILLEGAL:
 			last = wantStart // one source byte
 		default:
